@@ -1261,8 +1261,9 @@ const keptPrefix = ">"
 func voidElement(elementName string) bool {
 	switch elementName {
 	case "area", "base", "basefont", "bgsound", "br", "col", "embed", "frame",
-		"hr", "img", "input", "keygen", "link", "meta", "param", "source",
-		"track", "wbr":
+		"hr", "image", "img", "input", "keygen", "link", "meta", "param",
+		"source", "track", "wbr":
+		// (an image start tag makes an img element)
 		return true
 	default:
 		return false
